@@ -1006,20 +1006,36 @@ Qed.
 Lemma pairs_tree_cons o t ps acc : pairs_tree ((o, t) :: ps) acc = pairs_tree ps (Bin o acc (op_tree t)).
 Proof. reflexivity. Qed.
 
-Theorem plain_roundtrip_tokens qk r sf (its : items) l :
+Lemma sume_fst den k (a b : list dtriple) : map fst a = map fst b → sume den k a = sume den k b.
+Proof.
+  revert b. induction a as [|x a IH]; intros [|y b] H; try discriminate; [reflexivity|].
+  simpl in H. inversion H. simpl. rewrite (IH b) by assumption. congruence.
+Qed.
+
+(** for any display function (long names: the identity; '~': the symbols), provided the display
+    strings are pairwise distinct: the tokens evaluate to the container over the display strings *)
+Theorem plain_roundtrip_tokens_gen qk r short sf (its : items) (disp : string → string) l :
   items_wf its → its ≠ [] →
   Forall (λ nx : string * expo, ∃ z, nx.2 = XInt z) its →
-  layout qk r true false false sf its = Ok l →
-  ph_from_tokens (layout_tokens qk l ++ [TEnd]) = Ok (PH 1 (uc_of its), false).
+  (∀ nx, nx ∈ its → display r short nx.1 = Ok (disp nx.1)) →
+  NoDup (map (λ nx : string * expo, disp nx.1) its) →
+  layout qk r true false short sf its = Ok l →
+  ph_from_tokens (layout_tokens qk l ++ [TEnd])
+  = Ok (PH 1 (uc_of (map (λ nx : string * expo, (disp nx.1, nx.2)) its)), false).
 Proof.
-  intros Hwf Hne Hint Hl.
-  destruct (layout_inv qk r true false false sf its id l Hne (λ nx _, eq_refl) Hl)
+  intros Hwf Hne Hint Hdisp Hnd Hl.
+  set (its' := map (λ nx : string * expo, (disp nx.1, nx.2)) its).
+  assert (Hwf' : items_wf its').
+  { split.
+    - unfold its'. rewrite <- list_fmap_compose. exact Hnd.
+    - unfold its'. rewrite Forall_fmap. exact (proj2 Hwf). }
+  destruct (layout_inv qk r true false short sf its disp l Hne Hdisp Hl)
     as [pos [neg [-> [Hsub [Hperm [Hp [Hn [_ Hsum]]]]]]]].
-  set (tr := map (λ nx : string * expo, (id nx.1, nx.2, nx.1)) its) in *.
+  set (tr := map (λ nx : string * expo, (disp nx.1, nx.2, nx.1)) its) in *.
   (* every exponent is an int *)
   assert (Hz : Forall (λ t : dtriple, ∃ z, (extract2 t).2 = XInt z) (pos ++ neg)%list).
   { eapply Forall_impl; [exact Hsub|]. intros t Ht. cbv beta in Ht.
-    apply (elem_of_list_fmap_2 (λ nx : string * expo, (id nx.1, nx.2, nx.1))) in Ht as [nx [-> Hnx]].
+    apply (elem_of_list_fmap_2 (λ nx : string * expo, (disp nx.1, nx.2, nx.1))) in Ht as [nx [-> Hnx]].
     rewrite Forall_forall in Hint. exact (Hint nx Hnx). }
   apply Forall_app in Hz as [Hzp Hzn].
   assert (Gp : Forall good_term (map (pos_term true) (map extract2 pos))).
@@ -1028,9 +1044,10 @@ Proof.
   { rewrite !Forall_fmap. eapply Forall_impl; [exact Hzn|]. intros t [z Hz]. exact (good_neg_term _ z Hz). }
   assert (Hwfd : ∀ t : dtriple, wf (den1 t.1.1)) by (intros; apply wf_singleton; discriminate).
   (* the container the tokens evaluate to, characterised by its exponents *)
-  assert (Hfin : ∀ C, wf C → (∀ k, exp_of C k = (sume den1 k pos + sume den1 k neg)%Qc) → C = uc_of its).
-  { intros C WC EC. apply uc_ext; [exact WC|apply wf_uc_of, Hwf|]. intros k. rewrite EC, Hsum.
-    apply (sume_tr den1 id k its); [apply Hwf|reflexivity]. }
+  assert (Hfin : ∀ C, wf C → (∀ k, exp_of C k = (sume den1 k pos + sume den1 k neg)%Qc) → C = uc_of its').
+  { intros C WC EC. apply uc_ext; [exact WC|apply wf_uc_of, Hwf'|]. intros k. rewrite EC, Hsum.
+    rewrite <- (sume_tr den1 id k its'); [|apply Hwf'|reflexivity].
+    apply sume_fst. unfold tr, its'. rewrite <- !list_fmap_compose. reflexivity. }
   assert (Hlen : length (pos ++ neg) = length its).
   { rewrite Hperm. subst tr. apply map_length. }
   set (P := map (pos_term true) (map extract2 pos)) in *.
@@ -1085,5 +1102,161 @@ Proof.
         specialize (EP k true (p1 :: prest) Hp). specialize (EN k (n1 :: nrest) Hn).
         cbn [map] in EP, EN. fold tp P' in EP. fold tn N' in EN.
         rewrite EN. cbn [dprod fold_right] in EP. rewrite exp_of_mul in EP. unfold dprod. rewrite <- EP. ring.
+Qed.
+
+Theorem plain_roundtrip_tokens qk r sf (its : items) l :
+  items_wf its → its ≠ [] →
+  Forall (λ nx : string * expo, ∃ z, nx.2 = XInt z) its →
+  layout qk r true false false sf its = Ok l →
+  ph_from_tokens (layout_tokens qk l ++ [TEnd]) = Ok (PH 1 (uc_of its), false).
+Proof.
+  intros Hwf Hne Hint Hl.
+  rewrite (plain_roundtrip_tokens_gen qk r false sf its id l Hwf Hne Hint (λ nx _, eq_refl)); [| |exact Hl].
+  - assert (E : map (λ nx : string * expo, (id nx.1, nx.2)) its = its).
+    { unfold id. clear. induction its as [|[n x] its IH]; [reflexivity|]. simpl. f_equal. exact IH. }
+    rewrite E. reflexivity.
+  - unfold id. exact (proj1 Hwf).
+Qed.
+
+
+(** ********** name resolution after parsing: the guarded round trips ********** *)
+(** * resolving the parsed names: [resolve_names] on the container over display strings *)
+Section Resolve.
+  Context (r : reg).
+  Definition nm (d : string) : string := match get_name r d with Ok n => n | Err _ => "" end.
+  Fixpoint sumnm (k : string) (l : list (string * Qc)) : Qc :=
+    match l with [] => 0%Qc | dv :: l' => ((if decide (nm dv.1 = k) then dv.2 else 0) + sumnm k l')%Qc end.
+  Lemma sumnm_perm k a b : a ≡ₚ b → sumnm k a = sumnm k b.
+  Proof. induction 1; simpl; try congruence; ring. Qed.
+
+  Definition name_ok (dv : string * Qc) : Prop :=
+    ∃ n, get_name r dv.1 = Ok n ∧ n ≠ "" ∧ (∀ df, r_units r !! n = Some df → u_multiplicative df = true).
+
+  Lemma foldM_resolve many l : ∀ acc,
+    Forall name_ok l →
+    foldM (λ acc (kv : string * Qc),
+      let '(name, v) := kv in
+      cname ←r get_name r name;
+      if String.eqb cname "" then Ok acc else
+      let cname' := if many || negb (bool_decide (v = 1%Qc))
+                    then match r_units r !! cname with
+                         | Some df => if u_multiplicative df then cname else "delta_" ++ cname
+                         | None => cname end
+                    else cname in
+      Ok (uc_add acc cname' v)) l acc
+    = Ok (fold_left (λ a (dv : string * Qc), uc_add a (nm dv.1) dv.2) l acc).
+  Proof.
+    induction l as [|[d v] l IH]; intros acc H; [reflexivity|].
+    apply Forall_cons in H as [[n [Hn [Hne Hm]]] H]. simpl in Hn.
+    cbn [foldM]. rewrite Hn. cbn [rbind].
+    destruct (String.eqb_spec n "") as [->|_]; [congruence|].
+    assert (E : (if many || negb (bool_decide (v = 1%Qc))
+                 then match r_units r !! n with
+                      | Some df => if u_multiplicative df then n else "delta_" ++ n
+                      | None => n end else n) = n).
+    { destruct (many || negb (bool_decide (v = 1%Qc))); [|reflexivity].
+      destruct (r_units r !! n) as [df|] eqn:Eu; [|reflexivity]. rewrite (Hm df eq_refl). reflexivity. }
+    rewrite E. cbn [rbind]. rewrite (IH _ H). cbn [fold_left fst snd].
+    assert (nm d = n) as -> by (unfold nm; rewrite Hn; reflexivity). reflexivity.
+  Qed.
+  Lemma exp_fold_add k l : ∀ acc,
+    exp_of (fold_left (λ a (dv : string * Qc), uc_add a (nm dv.1) dv.2) l acc) k = (exp_of acc k + sumnm k l)%Qc.
+  Proof.
+    induction l as [|dv l IH]; intros acc; simpl; [ring|].
+    rewrite IH, exp_of_add. destruct (decide (nm dv.1 = k)) as [->|]; ring.
+  Qed.
+  Lemma wf_fold_add l : ∀ acc, wf acc → wf (fold_left (λ a (dv : string * Qc), uc_add a (nm dv.1) dv.2) l acc).
+  Proof. induction l as [|dv l IH]; intros acc H; simpl; [exact H|]. apply IH, wf_add, H. Qed.
+End Resolve.
+
+Lemma sumnm_items r (disp : string → string) k (its : items) :
+  NoDup (map fst its) →
+  (∀ nx, nx ∈ its → get_name r (disp nx.1) = Ok nx.1) →
+  sumnm r k (map (λ nx : string * expo, (disp nx.1, xval nx.2)) its) = exp_of (uc_of its) k.
+Proof.
+  induction its as [|nx its IH]; intros Hnd Hg; [simpl; rewrite exp_of_empty; reflexivity|].
+  simpl map in Hnd. apply NoDup_cons in Hnd as [Hnotin Hnd].
+  cbn [map sumnm fst snd]. rewrite IH; [|exact Hnd|intros y Hy; apply Hg; right; exact Hy].
+  rewrite uc_of_cons, exp_of_insert. unfold nm. rewrite (Hg nx ltac:(left)).
+  destruct (decide (nx.1 = k)) as [<-|Hne]; [|ring].
+  rewrite (uc_of_notin its nx.1 Hnotin). ring.
+Qed.
+
+Lemma resolve_names_ok r (disp : string → string) (its : items) :
+  items_wf its →
+  NoDup (map (λ nx : string * expo, disp nx.1) its) →
+  (∀ nx, nx ∈ its → get_name r (disp nx.1) = Ok nx.1 ∧ nx.1 ≠ ""
+                    ∧ (∀ df, r_units r !! nx.1 = Some df → u_multiplicative df = true)) →
+  resolve_names r (uc_of (map (λ nx : string * expo, (disp nx.1, nx.2)) its)) = Ok (uc_of its).
+Proof.
+  intros Hwf Hnd Hg. unfold resolve_names.
+  set (p := map (λ nx : string * expo, (disp nx.1, xval nx.2)) its).
+  assert (Ep : uc_of (map (λ nx : string * expo, (disp nx.1, nx.2)) its) = list_to_map p).
+  { unfold uc_of, p. rewrite <- list_fmap_compose. reflexivity. }
+  rewrite Ep.
+  assert (Hperm : map_to_list (list_to_map p : uc) ≡ₚ p).
+  { apply map_to_list_to_map. unfold p. rewrite <- list_fmap_compose. exact Hnd. }
+  rewrite foldM_resolve.
+  - f_equal. apply uc_ext; [apply wf_fold_add, wf_empty | apply wf_uc_of, Hwf|].
+    intros k. rewrite exp_fold_add, exp_of_empty, (sumnm_perm r k _ _ Hperm).
+    unfold p. rewrite (sumnm_items r disp k its (proj1 Hwf)); [ring|]. intros nx Hnx. apply (Hg nx Hnx).
+  - rewrite Hperm. unfold p. rewrite Forall_fmap. apply Forall_forall. intros nx Hnx.
+    destruct (Hg nx Hnx) as [H1 [H2 H3]]. exists nx.1. simpl. auto.
+Qed.
+
+(** the guard of the '~' round trip: every unit's symbol is read back as that unit (computed by
+    the name-resolution model of C08), no two units share a symbol, all are multiplicative *)
+Definition short_guard (r : reg) (its : items) : Prop :=
+  ∃ disp : string → string,
+    (∀ nx, nx ∈ its → display r true nx.1 = Ok (disp nx.1)
+                      ∧ get_name r (disp nx.1) = Ok nx.1 ∧ nx.1 ≠ ""
+                      ∧ (∀ df, r_units r !! nx.1 = Some df → u_multiplicative df = true))
+    ∧ NoDup (map (λ nx : string * expo, disp nx.1) its).
+
+Theorem short_roundtrip_guarded qk r sf (its : items) l :
+  items_wf its → its ≠ [] →
+  Forall (λ nx : string * expo, ∃ z, nx.2 = XInt z) its →
+  short_guard r its →
+  layout qk r true false true sf its = Ok l →
+  parse_units_tokens r (layout_tokens qk l ++ [TEnd]) = Ok (uc_of its).
+Proof.
+  intros Hwf Hne Hint [disp [Hg Hnd]] Hl. unfold parse_units_tokens.
+  rewrite (plain_roundtrip_tokens_gen qk r true sf its disp l Hwf Hne Hint (λ nx Hnx, proj1 (Hg nx Hnx)) Hnd Hl).
+  cbn [rbind ph_scale ph_d negb andb].
+  apply (resolve_names_ok r disp its Hwf Hnd). intros nx Hnx. destruct (Hg nx Hnx) as [_ H]. exact H.
+Qed.
+(** and for long names: every name must resolve to itself *)
+Theorem long_roundtrip_guarded qk r sf (its : items) l :
+  items_wf its → its ≠ [] →
+  Forall (λ nx : string * expo, ∃ z, nx.2 = XInt z) its →
+  (∀ nx, nx ∈ its → get_name r nx.1 = Ok nx.1 ∧ nx.1 ≠ ""
+                    ∧ (∀ df, r_units r !! nx.1 = Some df → u_multiplicative df = true)) →
+  layout qk r true false false sf its = Ok l →
+  parse_units_tokens r (layout_tokens qk l ++ [TEnd]) = Ok (uc_of its).
+Proof.
+  intros Hwf Hne Hint Hg Hl. unfold parse_units_tokens.
+  rewrite (plain_roundtrip_tokens qk r sf its l Hwf Hne Hint Hl).
+  cbn [rbind ph_scale ph_d negb andb].
+  assert (E : map (λ nx : string * expo, (id nx.1, nx.2)) its = its).
+  { unfold id. clear. induction its as [|[n x] its IH]; [reflexivity|]. simpl. f_equal. exact IH. }
+  rewrite <- E at 1. apply (resolve_names_ok r id its Hwf); [exact (proj1 Hwf)|exact Hg].
+Qed.
+
+
+(** ********** non-vacuity of the guard ********** *)
+Lemma short_guard_example :
+  let its := [("meter", XInt 1); ("second", XInt (-2)); ("kilogram", XInt 3)] in
+  items_wf its ∧ short_guard default_reg its
+  ∧ full_format_unit as_found default_reg (FCfg "" None SortUnitName) "~C" its = Ok "kg**3*m/s**2".
+Proof.
+  intros its. split; [|split].
+  - split; [apply (bool_decide_unpack _); vm_compute; exact I | repeat constructor; vm_compute; discriminate].
+  - exists (λ n, match resolve default_reg n with Ok d => u_symbol d | Err _ => n end). split.
+    + intros nx Hnx. unfold its in Hnx.
+      repeat (apply elem_of_cons in Hnx as [-> | Hnx]); try (inversion Hnx; fail);
+        (split; [vm_compute; reflexivity|]; split; [vm_compute; reflexivity|]; split; [discriminate|];
+         intros df H; vm_compute in H; inversion H; reflexivity).
+    + apply (bool_decide_unpack _). vm_compute. exact I.
+  - vm_compute. reflexivity.
 Qed.
 
